@@ -13,7 +13,7 @@
 From Coq Require Import List Bool Arith.
 From ME Require Import Base.Machine Model.Locks Proofs.Locks_Proofs Model.Layers Model.LayerShapes
   Proofs.Layers_Exec Proofs.Layers_Wf Proofs.Layers_Deadlock Proofs.Layers_Refute Proofs.Layers_Solo
-  Proofs.Layers_Seq Proofs.Layers_Num Proofs.Layers_Instances.
+  Proofs.Layers_Seq Proofs.Layers_Num Proofs.Layers_Sync Proofs.Layers_Instances.
 Import ListNotations.
 
 (* 0. the global numbering is the lexicographic order on (layer, local number) *)
@@ -122,10 +122,11 @@ Example c04_layers_updown_is_opposite_orders :
   lflat 2 (updown_threads 0 1 0 0) = [Acq 1; Acq 2; Rel 2; Rel 1] /\
   lflat 2 (updown_threads 0 1 0 1) = [Acq 2; Acq 1; Rel 1; Rel 2].
 Proof. exact updown_is_opposite_orders. Qed.
-(* G10 written from the code: timeout over retry over a SYNCHRONOUS executor.  submit() at the top is well-formed;
-   the retry thread (M and X held across SyncExecutor.submit, the callable inline, its nested submit to the top) is
-   not, its flattening violates the order, and the two deadlock: the user thread holds gate 0 and waits for X of
-   retry, the retry thread holds X and waits for gate 0 *)
+(* G10 written from the code: timeout over retry over a SYNCHRONOUS executor (the repaired one, commit 3a8457b: the
+   callable runs after the sync gate has been released -- that does not help here).  submit() at the top is
+   well-formed; the retry thread (M and X held across SyncExecutor.submit, the callable inline, its nested submit to
+   the top) is not, its flattening violates the order, and the two deadlock: the user thread holds gate 0 and waits
+   for X of retry, the retry thread holds X and waits for gate 0 *)
 Theorem c04_layers_g10_refuted :
   lwf KL (g10_threads 0) = true /\ lwf KL (g10_threads 1) = false /\
   ordered [] (lflat KL (g10_threads 1)) = false /\
@@ -189,18 +190,28 @@ Example c04_layers_g5_self_deadlock :
             (exists r, prog s 0 = Acq (glob KL 0 G) :: r) /\ owner s (glob KL 0 G) = Some 0 /\
             forall t, step_nr gate0_plain s t = None.
 Proof. exact g5_self_deadlock. Qed.
-(* the callable itself (inline inside SyncExecutor.submit, UNDER the sync gate) submits to the top again: an upward
-   call with a lock of the calling layer held -- outside wf_layers and outside the lexicographic order (the new
-   MapFuture's lock of layer 0 is taken under the sync gate of layer 1), so c04_layers_no_deadlock says nothing about
-   it; alone it returns all the same (d.) *)
-Example c04_layers_nested_in_callable :
-  wf_layers KL 0 nested_in_callable = false /\ ordered [] (flat KL 0 nested_in_callable) = false /\
-  balanced [] (flat KL 0 nested_in_callable) = true.
-Proof. exact nested_in_callable_facts. Qed.
+(* the callable itself, inline inside SyncExecutor.submit, submits to the map executor again.  On the code since commit
+   3a8457b (the callable runs after the sync gate has been released) this is well-formed, and alone it returns *)
+Example c04_layers_nested_in_callable_wf : wf_layers KL 0 nested_in_callable = true.
+Proof. exact nested_in_callable_wf. Qed.
 Example c04_layers_nested_in_callable_returns :
   exists s', run step (init_of (only 0 (flat KL 0 nested_in_callable))) (solo 0 (length (flat KL 0 nested_in_callable))) = Some s' /\
              (forall t, prog s' t = []) /\ (forall l, owner s' l = None).
 Proof. exact nested_in_callable_returns. Qed.
+(* HISTORICAL, the code before commit 3a8457b: the callable ran UNDER the sync gate: an upward call with a lock of the
+   calling layer held -- outside wf_layers and outside the lexicographic order (the new MapFuture's lock of layer 0 is
+   taken under the sync gate of layer 1), so c04_layers_no_deadlock said nothing about it; alone it returned all the
+   same (d.) *)
+Example c04_layers_nested_in_callable_before_fix :
+  wf_layers KL 0 nested_in_callable_before_fix = false /\
+  ordered [] (flat KL 0 nested_in_callable_before_fix) = false /\
+  balanced [] (flat KL 0 nested_in_callable_before_fix) = true.
+Proof. exact nested_in_callable_before_fix_facts. Qed.
+Example c04_layers_nested_in_callable_before_fix_returns :
+  exists s', run step (init_of (only 0 (flat KL 0 nested_in_callable_before_fix)))
+                 (solo 0 (length (flat KL 0 nested_in_callable_before_fix))) = Some s' /\
+             (forall t, prog s' t = []) /\ (forall l, owner s' l = None).
+Proof. exact nested_in_callable_before_fix_returns. Qed.
 
 (* 6. other numberings.  flat K is flatn (glob K); for ANY numbering of (layer, local lock), threads performing
    sequences of calls whose flattenings are ordered do not deadlock (this is c04_lock_order_no_deadlock plus closure
@@ -223,32 +234,106 @@ Theorem c04_gate_first_order : forall L K,
   (forall i k1 k2, 0 < k1 -> k1 < k2 -> gate_first L K i k1 < gate_first L K i k2) /\
   (forall i j k1 k2, i < j -> 0 < k1 -> k1 < K -> 0 < k2 -> gate_first L K i k1 < gate_first L K j k2).
 Proof. exact gate_first_order. Qed.
-(* map over a SYNCHRONOUS executor, every call entering at the top: submit, submit whose map function / whose callable
-   (inline, under the sync gate) submits again, cancel, shutdown, add_done_callback -- any number of threads, any
-   sequences: no deadlock.  This covers the shape that wf_layers and the lexicographic numbering reject *)
-Example c04_layers_map_sync_any_calls_no_deadlock : forall n (calls : nat -> list (list lp)),
-  (forall t, incl (calls t) map_sync_api) -> (forall t, n <= t -> calls t = []) ->
+(* HISTORICAL, the code before commit 3a8457b.  map over a SYNCHRONOUS executor, every call entering at the top: submit,
+   submit whose map function / whose callable (inline, under the sync gate) submits again, cancel, shutdown,
+   add_done_callback -- any number of threads, any sequences: no deadlock under the gates-first numbering.  This
+   covered the shape that wf_layers and the lexicographic numbering reject *)
+Example c04_layers_map_sync_before_fix_any_calls_no_deadlock : forall n (calls : nat -> list (list lp)),
+  (forall t, incl (calls t) map_sync_api_before_fix) -> (forall t, n <= t -> calls t = []) ->
   forall s, reachable_from step (init_of (fun t => flatn (gate_first LS KL) 0 (concat (calls t)))) s ->
   (exists t, prog s t <> []) -> exists t s', step s t = Some s'.
-Proof. exact map_sync_any_calls_no_deadlock. Qed.
-Example c04_layers_map_sync_api_has_nested_in_callable :
-  In nested_in_callable map_sync_api /\ wf_layers KL 0 nested_in_callable = false /\
-  ordered [] (flatn (glob KL) 0 nested_in_callable) = false /\
-  ordered [] (flatn (gate_first LS KL) 0 nested_in_callable) = true.
-Proof. exact map_sync_api_has_nested_in_callable. Qed.
-(* ... but ONLY when every call enters at the top.  The same stack entered at two layers, no retry executor involved:
-   thread 0 submits through the map executor, thread 1 submits DIRECTLY to the synchronous executor a callable that
-   submits to the map executor.  SyncExecutor.submit holds its gate while the callable runs: gate 1 then gate 0 against
-   gate 0 then gate 1 -- the up/down shape of c04_layers_updown_refuted with both locks gates; a reachable deadlock
-   (reproduced on /repo with two real threads, see REPORT.md) *)
+Proof. exact map_sync_before_fix_any_calls_no_deadlock. Qed.
+Example c04_layers_map_sync_api_before_fix_has_nested_in_callable :
+  In nested_in_callable_before_fix map_sync_api_before_fix /\
+  wf_layers KL 0 nested_in_callable_before_fix = false /\
+  ordered [] (flatn (glob KL) 0 nested_in_callable_before_fix) = false /\
+  ordered [] (flatn (gate_first LS KL) 0 nested_in_callable_before_fix) = true.
+Proof. exact map_sync_api_before_fix_has_nested_in_callable. Qed.
+(* ... but ONLY when every call entered at the top.  G20, HISTORICAL WITNESS about the code before commit 3a8457b: the
+   same stack entered at two layers, no retry executor involved: thread 0 submits through the map executor, thread 1
+   submits DIRECTLY to the synchronous executor a callable that submits to the map executor.  SyncExecutor.submit held
+   its gate while the callable ran: gate 1 then gate 0 against gate 0 then gate 1 -- the up/down shape of
+   c04_layers_updown_refuted with both locks gates; a reachable deadlock (it was reproduced on /repo with two real
+   threads; repaired by commit 3a8457b) *)
 Theorem c04_layers_gate_inversion_refuted :
-  lwf KL (gate_inversion_threads 0) = true /\ lwf KL (gate_inversion_threads 1) = false /\
-  ordered [] (flatn (gate_first LS KL) 1 sync_direct_nested) = false /\
-  exists s, run step (init_of (fun t => lflat KL (gate_inversion_threads t))) gate_inversion_schedule = Some s /\
+  lwf KL (gate_inversion_threads_before_fix 0) = true /\ lwf KL (gate_inversion_threads_before_fix 1) = false /\
+  ordered [] (flatn (gate_first LS KL) 1 sync_direct_nested_before_fix) = false /\
+  exists s, run step (init_of (fun t => lflat KL (gate_inversion_threads_before_fix t))) gate_inversion_schedule = Some s /\
             owner s (glob KL 0 G) = Some 0 /\ owner s (glob KL 1 G) = Some 1 /\
             (exists r, prog s 0 = Acq (glob KL 1 G) :: r) /\ (exists r, prog s 1 = Acq (glob KL 0 G) :: r) /\
             forall t, step s t = None.
 Proof. exact gate_inversion_deadlock. Qed.
+
+(* 7. the repaired synchronous executor (commit 3a8457b: gate section, THEN the callable).
+   For the checker the repaired submit is transparent: in every context the callable is checked exactly as if the
+   caller had run it itself at the sync layer, with nothing of that layer held ... *)
+Theorem c04_sync_repaired_transparent : forall K above callable, 0 < K ->
+  wfs K above [] (sync_submit_inline callable) = wfs K above [] callable.
+Proof. exact sync_repaired_transparent. Qed.
+(* ... whereas before the repair every upward call made by the callable was rejected *)
+Theorem c04_sync_before_fix_rejects_up : forall K above b r,
+  wfs K above [] (sync_submit_inline_before_fix (LUp b :: r)) = None.
+Proof. exact sync_before_fix_rejects_up. Qed.
+(* a submission made directly to the repaired synchronous executor at layer n+i with nothing held, whose callable calls
+   n layers up (ups n = n nested upward calls) and runs there ANY program c that is well-formed when entered
+   lock-free, is well-formed; so is the same call made from the layer just above the synchronous executor *)
+Theorem c04_sync_repaired_callable_wf : forall K n i c, 0 < K ->
+  wf_layers K i c = true -> wf_layers K (n + i) (sync_submit_inline (ups n c)) = true.
+Proof. exact sync_repaired_callable_wf. Qed.
+Theorem c04_sync_repaired_down_wf : forall K n i c, 0 < K ->
+  wf_layers K i c = true -> wf_layers K (n + i) [LDown (sync_submit_inline (ups (S n) c))] = true.
+Proof. exact sync_repaired_down_wf. Qed.
+(* hence: any number of threads, each making any sequence of calls that are well-formed or are such direct submissions
+   (call_ok) -- no reachable deadlock *)
+Theorem c04_sync_repaired_no_deadlock : forall K n start (calls : nat -> list (list lp)), 0 < K ->
+  (forall t, Forall (call_ok K (start t)) (calls t)) ->
+  (forall t, n <= t -> calls t = []) ->
+  forall s, reachable_from step (init_of (fun t => lflat K (seq_thread start calls t))) s ->
+  (exists t, prog s t <> []) -> exists t s', step s t = Some s'.
+Proof. exact sync_repaired_no_deadlock. Qed.
+(* map over the repaired synchronous executor, entered at the top (start 0: submit, submit whose map function / whose
+   callable submits again, cancel, shutdown, add_done_callback) AND directly at the sync layer (start 1: submit of a
+   plain callable, submit of a callable that submits to the map executor, shutdown): every shape is well-formed for the
+   lexicographic order; any number of threads, any sequences: no deadlock *)
+Example c04_layers_map_sync_any_calls_no_deadlock : forall n start (calls : nat -> list (list lp)),
+  (forall t, incl (calls t) (map_sync_api (start t))) -> (forall t, n <= t -> calls t = []) ->
+  forall s, reachable_from step (init_of (fun t => lflat KL (seq_thread start calls t))) s ->
+  (exists t, prog s t <> []) -> exists t s', step s t = Some s'.
+Proof. exact map_sync_any_calls_no_deadlock. Qed.
+(* G20 REPAIRED: the two threads of c04_layers_gate_inversion_refuted on the code since commit 3a8457b are well-formed,
+   belong to that API, have no reachable deadlock, and the schedule prefix that deadlocked extends to a run in which
+   both calls return *)
+Theorem c04_layers_gate_inversion_repaired :
+  (forall t, lwf KL (gate_inversion_threads t) = true) /\
+  In (l_prog (gate_inversion_threads 0)) (map_sync_api 0) /\ In (l_prog (gate_inversion_threads 1)) (map_sync_api 1) /\
+  (forall s, reachable_from step (init_of (fun t => lflat KL (gate_inversion_threads t))) s ->
+             (exists t, prog s t <> []) -> exists t s', step s t = Some s') /\
+  exists s, run step (init_of (fun t => lflat KL (gate_inversion_threads t)))
+                (gate_inversion_schedule ++ [1] ++ repeat 0 11 ++ repeat 1 12) = Some s /\
+            (forall t, prog s t = []) /\ (forall l, owner s l = None).
+Proof. exact gate_inversion_repaired. Qed.
+
+(* 8. further components.  PollExecutor over a pool (submit with a running / an already finished delegate -- gate, X, M
+   nested --, the pool worker completing or failing the delegate, the poll thread's iteration, cancel() holding M across
+   delegate.cancel(), shutdown, add_done_callback); FlatMapExecutor over a pool whose map function, run by the pool
+   worker inside _delegate_resolved, submits to the flat-map executor itself, both stages of the flattening, cancel of
+   the flattened future (M_0, then M_1 of the same layer, then the pool future): all well-formed; any number of
+   threads, any sequences: no deadlock *)
+Example c04_layers_poll_any_calls_no_deadlock : forall n start (calls : nat -> list (list lp)),
+  (forall t, incl (calls t) (poll_api (start t))) -> (forall t, n <= t -> calls t = []) ->
+  forall s, reachable_from step (init_of (fun t => lflat KL (seq_thread start calls t))) s ->
+  (exists t, prog s t <> []) -> exists t s', step s t = Some s'.
+Proof. exact poll_any_calls_no_deadlock. Qed.
+Example c04_layers_poll_nested_gate_X_M :
+  exists pre post, flat KL 0 poll_submit_delegate_done =
+    Acq (glob KL 0 G) :: pre ++ [Acq (glob KL 0 pX); Acq (glob KL 0 (pM 0))] ++ post /\
+    ~ In (Rel (glob KL 0 G)) pre.
+Proof. exact poll_nested_gate_X_M. Qed.
+Example c04_layers_flat_map_any_calls_no_deadlock : forall n start (calls : nat -> list (list lp)),
+  (forall t, incl (calls t) (flat_map_api (start t))) -> (forall t, n <= t -> calls t = []) ->
+  forall s, reachable_from step (init_of (fun t => lflat KL (seq_thread start calls t))) s ->
+  (exists t, prog s t <> []) -> exists t s', step s t = Some s'.
+Proof. exact flat_map_any_calls_no_deadlock. Qed.
 
 Print Assumptions c04_layers_numbering.
 Print Assumptions c04_layers_ordered.
@@ -273,3 +358,13 @@ Print Assumptions c04_numbered_calls_no_deadlock.
 Print Assumptions c04_gate_first_inj.
 Print Assumptions c04_layers_map_sync_any_calls_no_deadlock.
 Print Assumptions c04_layers_gate_inversion_refuted.
+Print Assumptions c04_layers_nested_in_callable_before_fix_returns.
+Print Assumptions c04_layers_map_sync_before_fix_any_calls_no_deadlock.
+Print Assumptions c04_sync_repaired_transparent.
+Print Assumptions c04_sync_before_fix_rejects_up.
+Print Assumptions c04_sync_repaired_callable_wf.
+Print Assumptions c04_sync_repaired_down_wf.
+Print Assumptions c04_sync_repaired_no_deadlock.
+Print Assumptions c04_layers_gate_inversion_repaired.
+Print Assumptions c04_layers_poll_any_calls_no_deadlock.
+Print Assumptions c04_layers_flat_map_any_calls_no_deadlock.
